@@ -59,7 +59,7 @@ def emit_geometries(chk, name, consts):
 
 def replay_geometries(chk: Check, recs, rng, site):
     counts = {}
-    for rec in recs:
+    for gi, rec in enumerate(recs):
         kind = rec["geom"]["kind"]
 
         def report(clause, detail, rec=rec, kind=kind):
@@ -68,7 +68,10 @@ def replay_geometries(chk: Check, recs, rng, site):
                 sig["raised"] = detail["raised"]
             chk.violation(sig, {"geom": rec["geom"], "detail": detail, "source": site})
 
-        n = check_geometry(rec, rng, report)
+        n = check_geometry(rec, rng, report, index=gi)
+        if kind != "conv":        # the few linear geometries: every shipped synapse class on each
+            for extra in (1, 2, 3):
+                n += check_geometry(rec, rng, report, index=gi + extra)
         chk.evaluations += n
         chk.traces += 1          # one TLC-generated behaviour (geometry) executed on the implementation
         counts[kind] = counts.get(kind, 0) + 1
@@ -84,8 +87,8 @@ def canary_geometry(chk: Check, recs, rng):
         raise MachineryFailure("canary: no geometry with a non-trivial relation was emitted")
     for mode in ("drop", "swap"):
         hits = []
-        for rec in big[:6]:
-            check_geometry(rec, random.Random(5), lambda c, d: hits.append(c), corrupt=mode)
+        for gi, rec in enumerate(big[:8]):
+            check_geometry(rec, random.Random(5), lambda c, d: hits.append(c), corrupt=mode, index=gi)
         if "Forward" not in hits:
             raise MachineryFailure(f"canary: a relation corrupted by '{mode}' was not noticed by the forward comparison")
     chk.note("canary: corrupted relations (dropped triple, swapped weights) disagree with the real connections")
@@ -215,7 +218,7 @@ def replay(path: str) -> int:
         if not recs:
             raise MachineryFailure("replay: TLC did not emit the recorded geometry")
         for s in range(20):
-            check_geometry(recs[0], random.Random(s), lambda c, d: hits.append((c, d)))
+            check_geometry(recs[0], random.Random(s), lambda c, d: hits.append((c, d)), index=s)
     else:
         impl = LateralImpl(rep["hdr"])
         for p in rep.get("path", []):
